@@ -41,11 +41,13 @@ Guard(a) == CASE a = "CHead" -> CanCHead [] a = "PStill" -> CanPStill [] a = "PC
               [] a = "PPush" -> CanPPush [] a = "PYield" -> CanPYield [] a = "PEnd" -> CanPEnd
               [] a = "CDeliver" -> CanCDeliver [] a = "CSuspend" -> CanCSuspend [] a = "CFinish" -> CanCFinish
               [] a = "CResume" -> CanCResume [] a = "Fire" -> CanFire [] a = "Spurious" -> CanSpurious
+              [] a = "PDecoy" -> CanPDecoy [] a = "CDiscard" -> CanCDiscard
               [] OTHER -> FALSE
 Named(a) == CASE a = "CHead" -> CHead [] a = "PStill" -> PStill [] a = "PCont" -> PCont
               [] a = "PPush" -> PPush [] a = "PYield" -> PYield [] a = "PEnd" -> PEnd
               [] a = "CDeliver" -> CDeliver [] a = "CSuspend" -> CSuspend [] a = "CFinish" -> CFinish
               [] a = "CResume" -> CResume [] a = "Fire" -> Fire [] a = "Spurious" -> Spurious
+              [] a = "PDecoy" -> PDecoy [] a = "CDiscard" -> CDiscard
               [] OTHER -> FALSE
 
 ResetTo(sc) == /\ script' = sc /\ ip' = 1 /\ queue' = <<>> /\ pushed' = <<>> /\ delivered' = <<>>
